@@ -83,6 +83,32 @@ func exploreCase(body func(fails *[]string, mu *sync.Mutex), opt sched.Options, 
 	return exploreCaseShard(body, opt, freeRuns, 0, 1, a)
 }
 
+func firstLine(s string) string {
+	if i := strings.IndexByte(s, '\n'); i >= 0 {
+		s = s[:i]
+	}
+	if len(s) > 300 {
+		s = s[:300]
+	}
+	return s
+}
+
+// failureOf extracts the failure description of one controlled execution ("" if none).
+func failureOf(r sched.Result) string {
+	switch {
+	case r.Failure != "":
+		return r.Failure
+	case len(r.Faults) > 0:
+		return "synchronisation fault: " + strings.Join(r.Faults, "; ")
+	}
+	for _, o := range r.Obs {
+		if strings.HasPrefix(o, "FAIL: ") {
+			return strings.TrimPrefix(o, "FAIL: ")
+		}
+	}
+	return ""
+}
+
 // concPostCheck, when set, is evaluated after every controlled execution has ended
 // (all tasks, including goroutines spawned by the code under test, have finished).
 var concPostCheck func() string
@@ -120,20 +146,7 @@ func exploreCaseShard(body func(fails *[]string, mu *sync.Mutex), opt sched.Opti
 		if os.Getenv("VERIF_PROFILE") == "2" && res.points == r.Points {
 			fmt.Fprintln(os.Stderr, strings.Join(r.Describe(), "\n"))
 		}
-		msg := ""
-		switch {
-		case r.Failure != "":
-			msg = r.Failure
-		case len(r.Faults) > 0:
-			msg = "synchronisation fault: " + strings.Join(r.Faults, "; ")
-		default:
-			for _, o := range r.Obs {
-				if strings.HasPrefix(o, "FAIL: ") {
-					msg = strings.TrimPrefix(o, "FAIL: ")
-					break
-				}
-			}
-		}
+		msg := failureOf(r)
 		if msg == "" && concPostCheck != nil {
 			msg = concPostCheck()
 		}
@@ -141,11 +154,33 @@ func exploreCaseShard(body func(fails *[]string, mu *sync.Mutex), opt sched.Opti
 		if msg != "" && res.failure == "" {
 			// replay twice before believing it
 			r1, same := sched.Replay(wrapped, r.Choices, opt)
-			if !same {
-				res.failure = "HARNESS: schedule does not replay deterministically: " + fmt.Sprint(r.Choices)
-			} else {
+			if same {
 				_ = r1
 				res.failure = msg
+			} else {
+				// The two replays differ: the outcome of this schedule depends on something that
+				// survives between executions (state the code keeps at package level) or that the
+				// scheduler does not own. The execution above was nevertheless a complete, valid
+				// execution of the real code (no divergence while its prefix was replayed), and
+				// its failure is an oracle verdict on that execution - a panic in the code under
+				// test, a wrong answer, a deadlock - so it is reported, marked as not replayable.
+				// Only failures that are themselves scheduler artefacts stay inconclusive.
+				again := 0
+				for k := 0; k < 3; k++ {
+					rk := sched.RunOnce(wrapped, r.Choices, opt)
+					mk := failureOf(rk)
+					if mk == "" && concPostCheck != nil {
+						mk = concPostCheck()
+					}
+					if mk != "" && sched.NormObs(mk) == sched.NormObs(msg) {
+						again++
+					}
+				}
+				if strings.HasPrefix(msg, "HARNESS") {
+					res.failure = "HARNESS: schedule does not replay deterministically: " + fmt.Sprint(r.Choices) + "; the failure seen was: " + firstLine(msg)
+				} else {
+					res.failure = fmt.Sprintf("%s\n(NOT REPLAYABLE: the same schedule gave this failure in %d of 3 further runs; the outcome depends on state that survives between executions - e.g. package-level state of the code under test - or that the scheduler does not control)", msg, again)
+				}
 			}
 			res.schedule = r.Choices
 			return false
